@@ -60,5 +60,5 @@ func (b *Box) Run(in chan int, names map[string]string) error {
 func (b *Box) drain() {
 	for range b.items {
 	}
-	vhook("sample.drained", b.describe(), helperName()) // hooks leave no trace, whatever their arguments
+	vhook("sample.drained", b.Name(), helperName()) // the accessor leaves no trace, the other call does
 }
